@@ -1,6 +1,7 @@
 import Driver.Proto
 import NutsModel.Facts.C15
 import NutsModel.C15.Streams
+import NutsModel.C15.Outbound
 open Lean Nuts.Drv
 
 /-- C15 adds the op that depends on C15's regenerated facts (the TLS server's ClientAuth mode) -/
@@ -55,6 +56,40 @@ def step15 (d : Nuts.Drv.Proto.DSt) (j : Json) : Nuts.Drv.Proto.DSt × List Stri
         (cs', outs ++ [s!"{rs}|{snap cs'}"])) (([] : List Nuts.C15.Conn), ([] : List String))
     let body := String.intercalate " ; " outs
     (d, [s!"inbound {body}"])
+  | "outbound" =>
+    -- one outbound connection: the contact's expected DID, then per protocol what the scripted server answers
+    let tab (k : String) (x : String) : Option String :=
+      (jArr j k).findSome? (fun p => match p with
+        | .arr a => if (a[0]?.bind (fun v => v.getStr?.toOption)) == some x then a[1]?.bind (fun v => v.getStr?.toOption) else none
+        | _ => none)
+    let E : Nuts.C15.InEnv := {
+      kind := if jStr j "kind" == "dummy" then .dummy else .tls,
+      auth := { parseHost := fun ep => some ep, verifyHostname := fun dns h => dns.contains h },
+      parseDID := tab "didtab", resolve := tab "endpoints" }
+    let plus (l : List String) : String := String.intercalate "+" l
+    let showConn (c : Nuts.C15.Conn) : String :=
+      let dns := plus (c.cert.getD ["-"])
+      let sids := plus (c.streams.map (fun s => toString s.sid))
+      s!"{c.id}~{c.peer.did}~{c.peer.authenticated}~{dns}~{sids}"
+    let ss : List Nuts.C15.OutStream := (jArr j "streams").map (fun ev =>
+      let crt : Option (List String) := if jBool ev "hascert" then some (jStrs ev "cert") else none
+      ⟨jNat ev "sid", jStr ev "proto", jBool ev "createfails", jBool ev "headerfails", jStrs ev "pids", jStrs ev "dids", jBool ev "other", crt⟩)
+    let x := jStr j "expected"
+    -- the connection as each protocol's CreateClientStream finds it (none after a fatal error)
+    let (_, _, trace) := ss.foldl (fun (acc : Nuts.C15.Conn × Bool × List String) s =>
+      let (c, dead, tr) := acc
+      if dead then acc
+      else
+        let r := Nuts.C15.openOutboundStream E c s
+        (r.1, (match r.2 with | .fatal _ => true | _ => false), tr ++ [showConn c])) (Nuts.C15.dialled x, false, ([] : List String))
+    let fin := Nuts.C15.openOutboundStreams E (Nuts.C15.dialled x) ss 0
+    let con := Nuts.C15.connectOutbound E x ss
+    let res := match fin.2 with
+      | .blocked => "blocked" | .noProtocol => "noproto"
+      | .fatal w => if w == "maintenance" || w == "auth" then "authfailed" else w
+    -- `connect` disconnects at once unless streams are live; a live connection is disconnected when a stream ends
+    let after := match con.2 with | .blocked => Nuts.C15.disconnect con.1 | _ => con.1
+    (d, [s!"outbound {res} [{String.intercalate " " trace}] end={showConn fin.1} after={showConn after} listed=0"])
   | "createtx" =>
     let parts : List Nuts.C15.KeyRes := (jStrs j "parts").map (fun x => match x with
       | "ok" => .ok | "deactivated" => .deactivated | "badkey" => .badKey | _ => .notFound)
